@@ -302,7 +302,7 @@ REGISTRY = {
     "C08": c08,
     "C09": coll_property(("coll_steps", "coll_fold"), step_props=("C09",)),
     "C10": coll_property(("coll_order", "coll_fold")),
-    "C11": coll_property(("coll_accept", "coll_order")),
+    "C11": coll_property(("coll_accept", "coll_members")),
     "C07": c07,
     "C13": life_property(A_LIFE),
     "C14": life_property(A_LIFE),
